@@ -835,6 +835,14 @@ class Interp:
             return None
         return obj if isinstance(obj, type) else None
 
+    def has_source(self, f):
+        """dataclass-generated methods have no source: they run natively."""
+        try:
+            self.closure_of(f)
+            return True
+        except (OSError, TypeError, NotEncodable, IndexError, SyntaxError):
+            return False
+
     def interpretable(self, f):
         if not isinstance(f, types.FunctionType):
             return False
@@ -1345,9 +1353,31 @@ class Interp:
             if isinstance(a, (str, SStr)) and isinstance(b, (str, SStr)):
                 return mkbool(lift_str(a) == lift_str(b))
             return False
+        # classes of the analysed code that define __eq__ in Python source: interpret it
+        for x, y in ((a, b), (b, a)):
+            if not isinstance(x, (type, types.ModuleType)) and not is_sym(x):
+                for klass in type(x).__mro__:
+                    f = klass.__dict__.get("__eq__")
+                    if f is not None:
+                        if isinstance(f, types.FunctionType) and self.interpretable(f) and self.has_source(f):
+                            return self.call(f, (x, y), {})
+                        break
         return a == b
 
+    def hash_of(self, x):
+        for klass in type(x).__mro__:
+            f = klass.__dict__.get("__hash__")
+            if f is not None:
+                if isinstance(f, types.FunctionType) and self.interpretable(f) and self.has_source(f):
+                    return self.call(f, (x,), {})
+                break
+        if hasattr(x, "sym_hash"):
+            return x.sym_hash()
+        return hash(x)
+
     def contains(self, container, item):
+        if hasattr(container, "sym_contains"):
+            return container.sym_contains(item)
         if isinstance(container, SStr) or (isinstance(container, str) and isinstance(item, SStr)):
             return mkbool(z3.Contains(lift_str(container), lift_str(item)))
         if isinstance(container, (list, tuple)):
@@ -1420,9 +1450,14 @@ class Interp:
         return self.call(set, (self.e_ListComp(n, env),), {})
 
     def e_DictComp(self, n, env):
-        out = SymDict()
-        self._comp(n.generators, env, lambda e: out.__setitem__(self.ev(n.key, e), self.ev(n.value, e)))
-        return out.finish()
+        pairs = []
+        self._comp(n.generators, env, lambda e: pairs.append((self.ev(n.key, e), self.ev(n.value, e))))
+        if any(deep_sym(k) for k, _ in pairs):
+            out = SymDict()
+            for k, v in pairs:
+                out[k] = v
+            return out
+        return dict(pairs)
 
     def _yield_env(self, env):
         e = env
@@ -1592,6 +1627,7 @@ def m_join(interp, sep, parts):
 
 
 MODELS = {
+    hash: lambda interp, x: interp.hash_of(x),
     len: m_len,
     isinstance: m_isinstance,
     str: m_str,
